@@ -1,15 +1,9 @@
 (* Reference PEG semantics of a pegen grammar, defined on the grammar AST (no helper rules, no
    cache, no marks): the oracle of C01/C02/C12/C19.  Big-step inductive relation. *)
 From Coq Require Import List String NArith Bool Arith.
-From Pegen Require Import Base.StrUtil Grammar.Ast Runtime.Tokenizer.
+From Pegen Require Import Base.StrUtil Base.Values Grammar.Ast Runtime.Tokenizer.
 Import ListNotations.
 Open Scope string_scope.
-
-Inductive value :=
-| VNone | VTrue
-| VTok (t : rtok)
-| VList (l : list value)
-| VAct (text : string) (env : list (string * value)).    (* result of an action: free interpretation *)
 
 (* numeric token kinds of the running interpreter (extracted every run) *)
 Record kinds := {
